@@ -312,13 +312,51 @@ def vias(it, i, a):
   return v
 
 
+GENERIC_HEADER = "from typing import Generic, TypeVar\nT = TypeVar('T')\n"
+
+
+def is_generic_item(it):
+  """hierarchies whose tag ends in 'g' are written with generic classes: every root class is `class K(Generic[T])`,
+  and a base that can be subscripted is spelled plain, `[int]` or `[T]` (deterministically); the MRO is the plain one"""
+  return it.tag.endswith("g")
+
+
+def generic_heads(it):
+  """-> {i: head line} for a generic-variant item"""
+  tag, bases = it.tag, it.bases
+  subs = {}          # class index -> can be subscripted
+  heads = {}
+  for i in range(1, len(bases)):
+    bs = bases[i]
+    if bs == [0]:
+      heads[i] = "class %s(Generic[T]):" % cname(tag, i)
+      subs[i] = True
+      continue
+    parts, mine = [], False
+    for j, b in enumerate(bs):
+      if b == 0:
+        parts.append("object")
+      elif subs.get(b):
+        k = (i * 7 + b * 3 + j + len(bases)) % 3
+        parts.append(cname(tag, b) + ["", "[int]", "[T]"][k])
+        mine = mine or k == 2
+      else:
+        parts.append(cname(tag, b))
+    heads[i] = "class %s(%s):" % (cname(tag, i), ", ".join(parts))
+    subs[i] = mine
+  return heads
+
+
 def make_chunks(it):
   """Statements of one hierarchy: list of (kind, key, source); kind 'class' key i, kind 'read' key (i, a, via)."""
   tag, bases = it.tag, it.bases
   chunks = []
+  gheads = generic_heads(it) if is_generic_item(it) else None
   for i in range(1, len(bases)):
     bs = bases[i]
-    if bs == [0] and (i + len(bases)) % 2 == 0:
+    if gheads is not None:
+      head = gheads[i]
+    elif bs == [0] and (i + len(bases)) % 2 == 0:
       head = "class %s:" % cname(tag, i)
     else:
       head = "class %s(%s):" % (cname(tag, i), ", ".join(cname(tag, b) for b in bs))
@@ -360,6 +398,9 @@ def build_module(items):
   src = []
   lines = {}
   ln = 1
+  if any(is_generic_item(it) for it in items):
+    src.append(GENERIC_HEADER)
+    ln += GENERIC_HEADER.count("\n")
   for it in items:
     for kind, key, text in make_chunks(it):
       lines[ln] = (it.tag, kind, key)
@@ -393,12 +434,19 @@ def observe_pytype(items, lines, types, errs):
   analysed, including the method's own class) are not attributed to a read; the read's type is compared."""
   mro_err = set()
   attr_err = set()
+  generic_conflict = set()
   stray = []
   body_err = []
   for name, line in errs:
     loc = lines.get(line)
     if name == "mro-error" and loc and loc[1] == "class":
       mro_err.add((loc[0], loc[2]))
+    elif name != "attribute-error" and loc and loc[0].endswith("g") and loc[1] in ("class", "body"):
+      # generic variant: pytype's own diagnostics about generic classes (invalid-annotation for conflicting
+      # parameterisations of one generic base, `class D(C, B[T])` with C(B); not-indexable after a failed class) are
+      # not about the linearisation; pytype then gives up on that class (Any), so the hierarchy is left out
+      generic_conflict.add(loc[0])
+      continue
     elif name == "attribute-error" and loc and loc[1] == "read":
       attr_err.add((loc[0],) + loc[2])
     elif loc and loc[1] == "body":
@@ -429,13 +477,16 @@ def observe_pytype(items, lines, types, errs):
           else:
             v = "?%s" % t
           reads[(i, a, via)] = v
-    obs[tag] = (status, reads)
+    if tag not in generic_conflict:
+      obs[tag] = (status, reads)
   return obs, stray
 
 
 def observe_cpython(it):
   """The same statements executed one by one by the running interpreter."""
   ns = {}
+  if is_generic_item(it):
+    exec(GENERIC_HEADER, ns)  # pylint: disable=exec-used
   n = len(it.bases)
   status = ["ok"] * n
   kinds = [None] * n
@@ -568,6 +619,13 @@ def program_inputs(rng, tier):
     nattrs = 3 if k >= n_ex else 2
     sd = random_defs(rng, len(h), nattrs, p=rng.choice([0.0, 0.25, 0.4]))
     items.append(Item("%d" % k, h, random_defs(rng, len(h), nattrs), sd, nattrs))
+  # the same linearisation question with generic classes: a deterministic family (every 3-class hierarchy with <= 2
+  # bases that has no duplicate base, and every 7th such 4-class hierarchy) written with Generic roots and parameterised bases
+  gen = [h for h, _ in enum_hiers(3, 2) if all(len(set(b)) == len(b) for b in h)]
+  gen += [h for h, _ in enum_hiers(4, 2) if all(len(set(b)) == len(b) for b in h)][::7][:60]
+  for k, h in enumerate(gen):
+    defs = [[]] + [[a for a in range(2) if (i + a + k) % 2 == 0] for i in range(1, len(h))]
+    items.append(Item("%dg" % k, h, defs, no_defs(len(h)), 2))
   return items, n_ex
 
 
